@@ -61,8 +61,12 @@ fn well_formed(f: &AckFrame) -> Option<u64> {
 fn iter_any<const N: usize>(assume_well_formed: bool) {
     let f = any_frame::<N>();
     let wf = well_formed(&f);
+    // the REAL gate (applied by frame::io::complete_frame to every ACK frame read from a packet) must
+    // coincide with the reference notion of well-formedness ...
+    assert!(f.is_well_formed() == wf.is_some(), "AckFrame::is_well_formed <=> no range reaches below packet number 0");
+    // ... and is iter's precondition
     if assume_well_formed {
-        kani::assume(wf.is_some());
+        kani::assume(f.is_well_formed());
     }
     let largest = f.largest();
     let mut total: u64 = 0;
@@ -94,18 +98,12 @@ fn iter_any<const N: usize>(assume_well_formed: bool) {
     kani::cover!(total > (1u64 << 61), "huge but legitimate cumulative acknowledgement");
 }
 
-// ---- pending: suspected genuine defect #4 (nothing validates First ACK Range / Gap / Range) -----
-#[kani::proof]
-#[kani::unwind(5)]
-fn c04_p_ackiter_any_fields_r0() {
-    iter_any::<0>(false);
-}
-
-#[kani::proof]
-#[kani::unwind(5)]
-fn c04_p_ackiter_any_fields_r1() {
-    iter_any::<1>(false);
-}
+// (The harnesses that ran `iter` on frames with ARBITRARY fields exposed genuine defect F-C04-ack-negative-range:
+// nothing validated First ACK Range / Gap / Range between the wire and `iter`, which underflowed. The
+// repair in /repo gates every received ACK frame; well-formedness is now `iter`'s
+// established precondition: the repair in /repo adds `AckFrame::is_well_formed` and applies it in
+// `frame::io::complete_frame`. The harnesses below tie the real predicate to the reference notion for ALL
+// field values (<= 2 extra ranges) and show that `iter` is safe under it.)
 
 // ---- passing twins: well-formed frames ------------------------------------------------------------
 #[kani::proof]
@@ -126,31 +124,43 @@ fn c04_ackiter_wellformed_r2() {
     iter_any::<2>(true);
 }
 
-/// The parser accepts ill-formed ACK frames (so the pending harnesses above are reachable from the
-/// wire: `ack_frame_with_ecn` is the only code between `be_frame` and the consumers of the frame).
-/// Concrete witnesses: bit-level nom parsing of even ONE symbolic varint prefix costs minutes
-/// (measured 183 s for one symbolic byte), and a witness is all that reachability needs.
 fn parse_all(bytes: &[u8]) -> AckFrame {
     let (rest, f) = ack_frame_with_ecn(Ecn::None)(bytes).unwrap();
     assert!(rest.is_empty());
     f
 }
 
+/// Ill-formed ACK frames are caught by the gate `AckFrame::is_well_formed`, which `frame::io::complete_frame`
+/// applies to every ACK frame read from a packet (`nom::combinator::verify`; the dispatcher side is
+/// C03's c03_complete_frame_ack_gate). The inner parser `ack_frame_with_ecn` itself still accepts them (the
+/// repository's unit test `test_read_ack_frame` pins that with an ill-formed frame). On the pinned tree nothing
+/// between the wire and `AckFrame::iter` validated these fields (debug: subtract-with-overflow panic;
+/// release: one wrapped "range" of up to 2^62 numbers collected into a Vec): genuine defect, fixed in /repo.
 #[kani::proof]
 #[kani::unwind(10)]
-fn c04_ackparse_accepts_illformed() {
+fn c04_ackparse_rejects_illformed() {
     // (a) Largest=0, Delay=0, Count=0, First ACK Range=1
     let f = parse_all(&[0x00, 0x00, 0x00, 0x01]);
-    assert!(f.largest() == 0 && f.first_range() == 1 && f.ranges().is_empty());
-    assert!(well_formed(&f).is_none(), "first_range > largest reaches AckFrame::iter unvalidated");
+    assert!(!f.is_well_formed(), "first_range > largest must be refused by the gate");
     core::mem::forget(f);
     // (b) Largest=5, Delay=0, Count=1, First=0, Gap=4, Range=0   (gap + 2 > smallest = 5)
     let f = parse_all(&[0x05, 0x00, 0x01, 0x00, 0x04, 0x00]);
-    assert!(f.largest() == 5 && f.first_range() == 0 && f.ranges().len() == 1);
-    assert!(f.ranges()[0].0.into_u64() == 4 && f.ranges()[0].1.into_u64() == 0);
-    assert!(well_formed(&f).is_none(), "gap below zero reaches AckFrame::iter unvalidated");
+    assert!(!f.is_well_formed(), "a gap reaching below packet number 0 must be refused by the gate");
     core::mem::forget(f);
-    kani::cover!(true, "both frames parsed");
+    // (c) Largest=0, Delay=0, Count=1, First=0, Gap=0, Range=2^62-1 (the 13-byte payload of the report)
+    let bytes: [u8; 13] = [0x00, 0x00, 0x01, 0x00, 0x00, 0xff, 0xff, 0xff, 0xff, 0xff, 0xff, 0xff, 0xff];
+    let f = parse_all(&bytes[..]);
+    assert!(!f.is_well_formed(), "a range reaching below packet number 0 must be refused by the gate");
+    core::mem::forget(f);
+    // (d) the boundary: Largest=5, First=1, Gap=2, Range=0 -> ranges 4..=5 and 0..=0: legal
+    let f = parse_all(&[0x05, 0x00, 0x01, 0x01, 0x02, 0x00]);
+    assert!(f.is_well_formed() && well_formed(&f) == Some(0));
+    let mut it = f.iter();
+    let a = it.next().unwrap();
+    let b = it.next().unwrap();
+    assert!(*a.start() == 4 && *a.end() == 5 && *b.start() == 0 && *b.end() == 0 && it.next().is_none());
+    core::mem::forget(f);
+    kani::cover!(true, "all four witnesses decided");
 }
 
 /// A well-formed frame of 18 bytes acknowledging 2^62 packet numbers (Largest = First ACK Range =
@@ -168,22 +178,3 @@ fn c04_ackparse_accepts_max_cumulative() {
     kani::cover!(true, "parsed");
 }
 
-/// pending: the concrete 14-byte ACK payload of the report (frame type 0x02 already consumed by
-/// be_frame_type): Largest=0, Delay=0, Count=1, First=0, Gap=0, Range=2^62-1.
-/// Debug build: `*largest - gap - 2` panics (attempt to subtract with overflow).
-/// Release build: wraps to right = 2^64-2, left = right - (2^62-1): one "range" of 2^62 numbers.
-#[kani::proof]
-#[kani::unwind(10)]
-fn c04_p_ackiter_wire_gap_underflow() {
-    let bytes: [u8; 13] = [0x00, 0x00, 0x01, 0x00, 0x00, 0xff, 0xff, 0xff, 0xff, 0xff, 0xff, 0xff, 0xff];
-    let (rest, f) = ack_frame_with_ecn(Ecn::None)(&bytes[..]).unwrap();
-    assert!(rest.is_empty() && f.largest() == 0 && f.ranges().len() == 1);
-    let mut total: u64 = 0;
-    for r in f.iter() {
-        assert!(*r.start() <= *r.end() && *r.end() <= f.largest());
-        kani::assume(*r.start() <= *r.end() && *r.end() <= f.largest());
-        total += *r.end() - *r.start() + 1;
-    }
-    assert!(total <= f.largest() + 1);
-    kani::cover!(true, "parsed");
-}
